@@ -58,6 +58,9 @@ var wrapMode bool // set per case: set-typed leaves only occur when the decoders
 
 func genLeaf(r *coqfmt.Rng) reflect.Type {
 	tup, _ := rty.TextUTypes()
+	if wrapMode && r.Chance(1, 7) {
+		return reflect.TypeOf(map[string]struct{}(nil)) // sets at every depth: in nested structs, in list elements, in both
+	}
 	switch x := r.Intn(28); {
 	case x == 27:
 		// a slice of TextUnmarshaler structs: its element type is not to be rewritten.  (Not []TUp:
@@ -729,6 +732,9 @@ func genericParse(f int, text string) (*doc, error, bool) {
 }
 
 // decodeWith runs decoder f, wrapped with the set-slice mangler as ez does when wrap is set.
+var yamlFlat = &dyaml.Decoder{FlattenAnonymous: true}
+var wrappedDecs = map[dials.Decoder]dials.Decoder{}
+
 func decodeWith(wrap bool, f int, text string, PT reflect.Type) (v reflect.Value, err error, panicked bool) {
 	defer func() {
 		if r := recover(); r != nil {
@@ -738,7 +744,14 @@ func decodeWith(wrap bool, f int, text string, PT reflect.Type) (v reflect.Value
 	}()
 	var dec dials.Decoder = decoders[f]
 	if wrap {
-		dec = sourcewrap.NewTransformingDecoder(dec, &transform.SetSliceMangler{})
+		// ONE wrapped decoder value per inner decoder, reused for every config type of the run: a
+		// decoder is handed the type on every Decode and must not remember an earlier one
+		w, ok := wrappedDecs[dec]
+		if !ok {
+			w = sourcewrap.NewTransformingDecoder(dec, &transform.SetSliceMangler{})
+			wrappedDecs[dec] = w
+		}
+		dec = w
 	}
 	src := &static.StringSource{Data: text, Decoder: dec}
 	v, err = src.Value(context.Background(), dials.NewType(PT))
@@ -816,7 +829,7 @@ func run(raw json.RawMessage) driver.Result {
 		return driver.Result{Coq: "Skipped 1", Kind: "dupkey", Nontrivial: true, Tags: []string{"duplicate-key-type"}, Direct: direct}
 	case "flat":
 		saved := decoders[1]
-		decoders[1] = &dyaml.Decoder{FlattenAnonymous: true}
+		decoders[1] = yamlFlat
 		v, err, p := decodeWith(in.Wrap, 1, render(1, d), PT)
 		decoders[1] = saved
 		tags := []string{"yaml-flatten-anonymous"}
